@@ -11,6 +11,7 @@ import StepModel.P21.AggrLemmas
 import StepModel.P21.RtsLemmas
 import StepModel.P21.RawAggrLemmas
 import StepModel.P21.RawStrLemmas
+import StepModel.P21.AggrWriteLemmas
 import StepModel.Generated.P21RWGen
 import StepModel.Generated.P21LexGen
 /-!
@@ -3543,6 +3544,73 @@ theorem C09_aggr_nested_string_witness :
       subst he
       exact ⟨[39, 41, 59, 39, 44, 49], hR, rfl, Seps.blanks [] (by simp), rfl, rfl⟩) [] true [44]
   simpa [renderQ] using h
+
+/-! ### aggregates, writer side (over `writeAggr` of C01's `P21/Writer.lean`) -/
+
+/-- **aggregate of INTEGER, written and read back**: what `STEPaggregate::STEPwrite` writes for a non-empty list of INTEGER values
+    other than the in-band null — `( tok₁ , … , tokₙ )`, every `tokᵢ` the token `WriteInteger` prints, a token of the grammar
+    (`showInt_spec`) — is read by `STEPaggregate::ReadValue` to exactly that list with no error, wherever it stands -/
+theorem C09_aggr_writer_integer_round_trip {F} (env : Env F) (hcfg : env.lex.criSkipsComments = true)
+    (hagg : env.cfg.aggrSkipsComments = true) (d : Dict) (vs : List Int) (hne : vs ≠ [])
+    (hr : ∀ v ∈ vs, longMin ≤ v ∧ v < longMax) (l : List Byte) (sk : Bool) (rest : List Byte) :
+    aggrRead env .integer (G l (writeAggr env.ops env.cfg d .integer (vs.map (fun v => (Elem.atom (.int v) : Elem F))) ++ rest) sk) =
+      .ok (.null, some (vs.map (fun v => (Elem.atom (.int v) : Elem F))),
+        G ((writeAggr env.ops env.cfg d .integer (vs.map (fun v => (Elem.atom (.int v) : Elem F)))).reverse ++ l) rest sk) := by
+  have hw : writeAggr env.ops env.cfg d .integer (vs.map (fun v => (Elem.atom (.int v) : Elem F))) =
+      40 :: renderQ (vs.map (fun v => (intQ v : ElemQ F))) := by
+    unfold writeAggr
+    have := writeNodes_int env.ops env.cfg d vs [] hne
+    simp only [List.cons_append, List.nil_append]
+    rw [this]
+  rw [hw]
+  have hok : ∀ e ∈ vs.map (fun v => (intQ v : ElemQ F)), ElemReads env .integer id e := by
+    intro e he
+    obtain ⟨v, hv, rfl⟩ := List.mem_map.1 he
+    obtain ⟨h1, h2⟩ := showInt_spec v
+    obtain ⟨h3, h4⟩ := hr v hv
+    have := ElemReads.integer env hcfg hagg (showInt v) [] [] h1 (by rw [h2]; exact h3) (by rw [h2]; exact h4)
+      (Seps.blanks [] (by simp)) (Seps.blanks [] (by simp))
+    rw [h2] at this
+    exact this
+  have := C09_aggr_accept env hagg .integer id (fun _ => rfl) (vs.map (fun v => (intQ v : ElemQ F))) (by simpa using hne) hok l sk rest
+  simpa [intQ, List.map_map, Function.comp_def] using this
+
+/-- **aggregate of REAL, written and read back — every finite double**: with the repaired `WriteReal` (`dblOpsRT`) and no
+    fixed buffer in `ReadReal`, what `STEPaggregate::STEPwrite` writes for a non-empty list of finite doubles other than the
+    in-band null is read by `STEPaggregate::ReadValue` to exactly that list, bit for bit, with no error (the element tokens are
+    grammar tokens by `C09_write_real_conforming`, their values come back by the 17-digit theorem) -/
+theorem C09_aggr_writer_real_round_trip (env : Env Nat) (hops : env.ops = dblOpsRT) (hcfg : env.lex.criSkipsComments = true)
+    (hagg : env.cfg.aggrSkipsComments = true) (hbuf : env.lex.realBuf = 0) (d : Dict) (vs : List Nat) (hne : vs ≠ [])
+    (hr : ∀ v ∈ vs, v < 2 ^ 64 ∧ (v / Dbl.pow2 52 % 2048 == 2047) = false ∧ (v == Dbl.realNullBits) = false)
+    (l : List Byte) (sk : Bool) (rest : List Byte) :
+    aggrRead env .real (G l (writeAggr env.ops env.cfg d .real (vs.map (fun v => (Elem.atom (.real v) : Elem Nat))) ++ rest) sk) =
+      .ok (.null, some (vs.map (fun v => (Elem.atom (.real v) : Elem Nat))),
+        G ((writeAggr env.ops env.cfg d .real (vs.map (fun v => (Elem.atom (.real v) : Elem Nat)))).reverse ++ l) rest sk) := by
+  have hw : writeAggr env.ops env.cfg d .real (vs.map (fun v => (Elem.atom (.real v) : Elem Nat))) =
+      40 :: renderQ ((vs.map (fun v => (Atom.real v : Atom Nat))).map
+        (fun a => (⟨writeAtomCore env.ops .real a, [], [], .atom a⟩ : ElemQ Nat))) := by
+    unfold writeAggr
+    have := writeNodes_atoms env.ops env.cfg d .real (writeAtomCore env.ops .real) (fun sc a => rfl)
+      (vs.map (fun v => (Atom.real v : Atom Nat))) [] (by simpa using hne)
+    simp only [List.map_map, Function.comp_def] at this
+    simp only [List.cons_append, List.nil_append, List.map_map, Function.comp_def]
+    rw [this]
+  rw [hw]
+  have hok : ∀ e ∈ (vs.map (fun v => (Atom.real v : Atom Nat))).map
+      (fun a => (⟨writeAtomCore env.ops .real a, [], [], .atom a⟩ : ElemQ Nat)), ElemReads env .real id e := by
+    intro e he
+    simp only [List.map_map, List.mem_map, Function.comp_def] at he
+    obtain ⟨v, hv, rfl⟩ := he
+    obtain ⟨h1, h2, h3⟩ := hr v hv
+    have hshape := dbl_fmtShortest_shape v h2
+    obtain ⟨dec, hp, hdv⟩ := dbl_fmtShortest_stable v (C09_writer_seventeen_digits_convert_back v h1 h2)
+    obtain ⟨hreal, hden⟩ := C09_write_real_conforming dblOpsRT v hshape
+    have htok : writeAtomCore env.ops .real (Atom.real v) = attrWrite dblOpsRT .real (.real v) := by rw [hops]; rfl
+    rw [htok]
+    exact ElemReads.real env hcfg hagg .real (Or.inl rfl) _ [] [] dec v hreal (by rw [hden]; exact hp) (by rw [hops]; exact hdv)
+      (by rw [hops]; exact h3) (Or.inl hbuf) (Seps.blanks [] (by simp)) (Seps.blanks [] (by simp))
+  have := C09_aggr_accept env hagg .real id (fun _ => rfl) _ (by simpa using hne) hok l sk rest
+  simpa [List.map_map, Function.comp_def] using this
 
 end Aggregates
 
